@@ -257,6 +257,17 @@ func (c *labTCPConn) send(data []byte) error {
 }
 
 // close resets the connection (no TIME_WAIT): long runs must not exhaust the local port range
+// sendStrict is send for connections that carry nothing but in-domain
+// traffic: if the write fails, the peer - the proxy - has closed a connection
+// it had every reason to keep serving; that is reported as a lost message
+// (a verdict), not as a harness problem.
+func (c *labTCPConn) sendStrict(data []byte) error {
+	if err := c.send(data); err != nil {
+		return labLost{fmt.Sprintf("the proxy closed the TCP connection %s, which carried only well-formed messages (%v)", c, err)}
+	}
+	return nil
+}
+
 func (c *labTCPConn) close() {
 	if tc, ok := c.conn.(*net.TCPConn); ok {
 		tc.SetLinger(0)
